@@ -2,7 +2,7 @@ SPECIFICATION Spec
 CONSTANTS
   EffTokens = {"pa", "pae", "sp", "in", "pn", "pcr"}
   MaxEff = 1
-  Modes = {"normal", "exc", "closeOut"}
+  Modes = {"normal", "closeOut"}
   FnModes = {"normal"}
   MaxFns = 1
   Depth = 3
@@ -12,11 +12,7 @@ CONSTANTS
   Threadeds = {FALSE}
   Givens = {}
   Blockeds = {"none"}
-  Flags = {}
-INVARIANT Restored
-INVARIANT Contained
-INVARIANT NoSpuriousFb
+  Flags = {"closed_stream_loses_output"}
 INVARIANT OutputLedger
-INVARIANT InputFifo
 CONSTRAINT Export
 CHECK_DEADLOCK FALSE
